@@ -46,6 +46,9 @@ def write_tree(root, files):
         if mode == 'link':   # a symbolic link, data = its target
             os.symlink(data, p)
             continue
+        if mode == 'dir':    # an (empty) directory
+            os.makedirs(p, exist_ok=True)
+            continue
         with open(p, 'wb') as f:
             f.write(data)
         os.chmod(p, 0o644 if mode is None else mode)
